@@ -38,6 +38,15 @@ class UserError(Exception):
         self.n = n
 
 
+class UserBaseError(BaseException):
+    """An exception outside the Exception hierarchy (like KeyboardInterrupt / SystemExit): the interpreted
+    functions' `catch` - an `except Exception` - does not stop it, it leaves the whole build."""
+
+    def __init__(self, n):
+        super().__init__('user base error %d' % n)
+        self.n = n
+
+
 class NotJson:
     """A value that is not a JSON value (for the nonJson outcome)."""
 
@@ -64,7 +73,8 @@ class Frame:
 class Run:
     def __init__(self, scenario, parent_dir=None, interposer=None):
         self.sc = scenario
-        self.sb = Sandbox(tuple(scenario.get('cache', ['k'])), parent=parent_dir, key=scenario.get('id'))
+        self.sb = Sandbox(tuple(scenario.get('cache', ['k'])), parent=parent_dir,
+                          key=scenario.get('sandbox_key') or scenario.get('id'))
         self.events = []
         self.exc_n = 0
         self.build_no = 0
@@ -258,20 +268,22 @@ class Run:
         endname = 'bf_end' if is_bf else 'sb_end'
         try:
             ret = call()
-        except Exception as x:
+        except BaseException as x:
+            if not isinstance(x, (Exception, UserBaseError)):
+                raise
             same = state['exc'] is not None and x is state['exc']
             e = self.ev(ev=endname, inv=state['invoked'], out='raised', err=x.__class__.__name__,
-                        same=same, ret={'k': 'none'})
+                        same=same, ret={'k': 'none'}, base=isinstance(x, UserBaseError))
             if not same and os.environ.get('FBV_TB'):
                 import traceback
                 e['tb'] = ''.join(traceback.format_exception(type(x), x, x.__traceback__))[-1500:]
             if is_bf:
                 e['real'] = _real_state(self.sb.path(st['p']))
-            if not st.get('catch', False):
+            if not st.get('catch', False) or (isinstance(x, UserBaseError) and not st.get('catch_base')):
                 raise
             return ['E', x.__class__.__name__]
         e = self.ev(ev=endname, inv=state['invoked'], out='ok', err='', same=False,
-                    ret=terms.to_term(ret))
+                    ret=terms.to_term(ret), base=False)
         if is_bf:
             e['real'] = _real_state(self.sb.path(st['p']))
         shown = terms.show(ret)
@@ -335,7 +347,7 @@ class Run:
             elif s in ('bf', 'sb'):
                 try:
                     o = self.call_complex(builder, fr, st)
-                except Exception as x:
+                except (Exception, UserBaseError) as x:
                     # not caught by this function: it ends by propagating x
                     self.ev(ev='fn_end', out='raise', v={'k': 'none'}, x=getattr(x, 'n', 0),
                             prop=True, err=x.__class__.__name__)
@@ -344,6 +356,8 @@ class Run:
             elif s == 'write':
                 if fr.kind == 'bf':
                     fn = getattr(fr, 'path_recv', None) or self.sb.path(fr.path)
+                    if st['c'] == '@obs':        # the bytes written depend on what the function has observed
+                        st = dict(st, c='c%d' % (int(digest(fr.obs), 16) % 3 + 1))
                     try:
                         mt = self.sb.write_file(fn, st['c'], st['sz'], st.get('mt'))
                     except OSError as x:
@@ -357,6 +371,8 @@ class Run:
             elif s == 'return':
                 if 'v' in st:
                     v = terms.from_term(st['v']) if isinstance(st['v'], dict) and 'k' in st['v'] else st['v']
+                elif st.get('nonjson') == 'empty':
+                    v = set()           # not a JSON value, and falsy
                 elif st.get('nonjson'):
                     v = NotJson()
                 elif st.get('container'):
@@ -367,7 +383,9 @@ class Run:
                 return v
             elif s == 'raise':
                 x = self.new_exc()
-                self.ev(ev='fn_end', out='raise', v={'k': 'none'}, x=x.n, prop=False, err='UserError')
+                if st.get('base'):
+                    x = UserBaseError(x.n)
+                self.ev(ev='fn_end', out='raise', v={'k': 'none'}, x=x.n, prop=False, err=x.__class__.__name__)
                 raise x
             elif s == 'handoff':
                 self.handoff = builder
@@ -636,7 +654,7 @@ class Run:
             try:
                 v = FileBuilder.build_versioned(a_cache, a_name, a_vers, a_func)
                 return {'out': 'returned', 'v': terms.to_term(v), 'err': '', 'same': False}
-            except Exception as x:
+            except (Exception, UserBaseError) as x:
                 return {'out': 'raised', 'v': {'k': 'none'}, 'err': x.__class__.__name__,
                         'same': state['exc'] is not None and x is state['exc']}
         try:
